@@ -14,11 +14,12 @@ Senders == {A("s", <<"ok","test">>), A("bad", <<"bmf","test">>), A("x", <<"bmfdo
             [A("s", <<"ok","test">>) EXCEPT !.long = TRUE], [A("s", <<>>) EXCEPT !.lit = TRUE, !.edge = TRUE]}
 Rcpts == {A("r", <<"rh","test">>), A("r", <<"sub","dot","test">>), A("r", <<"dot","test">>), A("r", <<"more","test">>), A("r", <<"x","moredot","test">>),
           A("r", <<"other","test">>), A("r", <<"x","rh","test">>), [A("r", <<>>) EXCEPT !.noat = TRUE], [A("r", <<>>) EXCEPT !.lit = TRUE],
-          [A("r", <<"rh","test">>) EXCEPT !.long = TRUE], [A("r", <<>>) EXCEPT !.lit = TRUE, !.edge = TRUE]}
+          [A("r", <<"rh","test">>) EXCEPT !.long = TRUE], [A("r", <<>>) EXCEPT !.lit = TRUE, !.edge = TRUE],
+          A("r", <<"abcdefghijklm","nopqrstuvwxyz","test">>)}
 Cmds == {[verb |-> v, a |-> MonInit.sender] : v \in {"HELO", "EHLO", "RSET", "NOOP", "VRFY", "HELP", "XXXX", "DATA"}}
         \cup {[verb |-> "MAIL", a |-> s] : s \in Senders} \cup {[verb |-> "RCPT", a |-> r] : r \in Rcpts}
-Base == [rh |-> TRUE, exact |-> {<<"rh","test">>, <<"lip","test">>}, suffix |-> {<<"dot","test">>}, mexact |-> {<<"more","test">>}, msuffix |-> {<<"moredot","test">>},
-         bmfaddr |-> {[loc |-> "bad", dom |-> <<"bmf","test">>]}, bmfdom |-> {<<"bmfdom","test">>}, lip |-> <<"test","example">>, relay |-> "unset"]
+Base == [rh |-> TRUE, exact |-> {<<"rh","test">>, <<"lip","test">>, <<"abcdefghijklm","nopqrstuvwxyz","test">>}, suffix |-> {<<"dot","test">>}, mexact |-> {<<"more","test">>}, msuffix |-> {<<"moredot","test">>},
+         bmfaddr |-> {[loc |-> "bad", dom |-> <<"bmf","test">>]}, bmfdom |-> {<<"bmfdom","test">>}, lip |-> <<"test","example">>, relay |-> "unset", mrhbad |-> FALSE]
 Configs == {Base, [Base EXCEPT !.rh = FALSE], [Base EXCEPT !.lip = <<"lip","test">>], [Base EXCEPT !.lip = <<"notlisted","test">>],
             [Base EXCEPT !.relay = "empty"], [Base EXCEPT !.relay = "suffix"], [Base EXCEPT !.mexact = {}, !.msuffix = {}, !.bmfaddr = {}, !.bmfdom = {}]}
 VARIABLES cfg, st, ps, verdict, n
